@@ -6532,7 +6532,8 @@ def h_record_reduce(nfields, length):
         prog, exp = '', {}
         for k in range(nfields):
             vals_ = [10 * k + i + 1 for i in range(length + 2)]
-            prog += 'i64 %s ' % fullnative.ints(vals_)
+            # an option-type field (nothing missing): that class sizes its work by its own length, so an untrimmed field shows
+            prog += 'i64 %s option64 %s ' % (fullnative.ints(vals_), fullnative.ints(range(length + 2)))
             exp[str(k)] = sum(vals_[:length])
         prog += 'tuple %d %d regular %d 1 reduce sum 1 0 0' % (nfields, length, length) if length else 'tuple %d 0 regular 0 1 reduce sum 1 0 0' % nfields
         return akrun_check(prog, [exp], 'sum(axis=1) over one list of %d records whose field contents are 2 entries longer' % length)
